@@ -185,6 +185,32 @@ def rule_nobody_iterates_schema(ctx, rid="R10.3"):
                 any(t.kind == "func" and t.func is g for t in tg) for (_n, _c, tg) in calls.calls_in(c))}
             if g.cls is None and (g in helpers or called_by <= {disp}):
                 walkers.add(g)
+    # what a reference resolves to is a schema object too: the function that asked for it hands it on (descend), it does not look inside
+    for f in sorted(reach, key=lambda x: x.qual):
+        resolved_names = set()
+        for n in walk_body(f):
+            if isinstance(n, ast.Assign) and isinstance(n.value, ast.Call) and isinstance(n.value.func, ast.Attribute) and n.value.func.attr in ("resolve", "resolve_from_url", "resolve_fragment") \
+                    and f.cls is None:
+                t = n.targets[0]
+                if isinstance(t, ast.Tuple) and len(t.elts) == 2 and isinstance(t.elts[1], ast.Name):
+                    resolved_names.add(t.elts[1].id)
+                elif isinstance(t, ast.Name) and n.value.func.attr != "resolve":
+                    resolved_names.add(t.id)
+            elif isinstance(n, ast.With):
+                for it in n.items:
+                    if isinstance(it.context_expr, ast.Call) and isinstance(it.context_expr.func, ast.Attribute) and it.context_expr.func.attr == "resolving" \
+                            and isinstance(it.optional_vars, ast.Name) and f.cls is None:
+                        resolved_names.add(it.optional_vars.id)
+        if not resolved_names:
+            continue
+        rs2 = reads_on_names(f, resolved_names, "resolved schema", calls, depth=99)
+        looks = [x for x in rs2 if x.kind in ITER_KINDS or x.kind in ("get", "getitem", "in", "pop", "setdefault")]
+        if not looks:
+            r.ok(site(f) + " [resolved]", "what the reference resolves to (%s) is handed on, not looked into" % ", ".join(sorted(resolved_names)))
+        for x in looks:
+            r.fail("%s|looks-into-resolved|%s" % (f.qual, norm(x.node)[:50]), site(f, x.node),
+                   "%s looks into the schema a reference resolved to (%s): what it finds there -- a bare alias, an annotation next to it -- then changes "
+                   "how the reference is followed" % (f.qual, norm(x.node)[:60]))
     for f in sorted(reach, key=lambda x: x.qual):
         sp = calls.param_with_role(f, "schema")
         if sp is None and f in walkers and f.params:
